@@ -7,7 +7,7 @@ ENVP = "GOFLAGS=-mod=mod GOPROXY=off GOSUMDB=off GOTOOLCHAIN=local GOWORK=off"
 
 NOTE = ("Trusted base: go/types, go/ssa and the VTA call graph of golang.org/x/tools v0.29.0 (sound for first-order Go modulo reflection/unsafe), "
         "the Go defer/select/channel semantics encoded in the rules, and the reviewed-table entries reported as 'assumed' obligations. "
-        "Path rules are path-insensitive except for constant-argument propagation, return-correlated branches and nil/empty guards on a required call's own operands. "
+        "Path rules are path-insensitive except for constant-argument propagation, return-correlated branches, nil/empty guards on a required call's own operands, and the failure-propagation walker (path-sensitive in nil / non-nil facts of error values). Rules named 'delegation' (C13.R5, C15.R7) check the assumption that a value-level clause is carried by a standard-library primitive and fail as UNDECIDED when the module computes it itself. "
         "Happens-before between goroutines is not modelled.")
 
 CLAIMED = {
